@@ -23,7 +23,11 @@ RULE = ("PDE instances with <=6 nodes and <=6 time levels (quick) / <=7 (thoroug
         "x grid_obs relation x time_obs form x observation map) cell of the lattice below gets cases; plus grid SCALE 2^-40..2^20 x grid "
         "PERTURBATION (relative 2^-10/-20/-30, absolute 2^-30/-40, same values in another array / dtype) x time-of-observation perturbation "
         "(T - span*2^-20/-31/-40, time scales 2^-30..2^10) on exactly polynomial discrete solutions (branch = DECISION vs exact grid equality, "
-        "values vs the exact polynomial, purely relative 1e-10); values inside cells are "
+        "values vs the exact polynomial, purely relative 1e-10); VALUE scale 2^-60..2^60 of source/initial condition (all tolerances purely "
+        "relative to the largest expected entry); declaration styles (csr/csc/dia sparse operators with scipy.linalg.solve / spsolve / cg returning "
+        "(x, info); scalar and one-element sources; PDE forms writing into persistent buffers; solvers overwriting their inputs or returning one "
+        "reused buffer; one input array overwritten in place between forward calls; histories of nearly identical parameters; keep-alive re-read "
+        "of every earlier output and input); solutions with two space axes; KL / KL_Full / CustomKL / Step / mapped fields of the test problems; values inside cells are "
         "seeded. distinct = distinct (configuration, parameter, API path); trivial = single-level time grids and refused "
         "constructors")
 
@@ -616,13 +620,27 @@ def o_td_observe(cfg, u, time_obs_eff):
         return ("err",)
 
 
-def arr_close(a, b, tol):
-    """purely relative to the largest expected entry (no absolute part): invariant under rescaling of the values"""
+def arr_close(a, b, tol, floor=0.0):
+    """purely relative (no absolute part, invariant under rescaling of the values): to the largest expected entry or, if larger,
+    to `floor` = the magnitude the observation map gives to the largest entry of the whole solution (an expected 0 next to
+    O(s) values may come back as rounding noise eps*s)"""
     a, b = np.asarray(a, dtype=float), np.asarray(b, dtype=float)
     if a.shape != b.shape:
         return False
-    m = float(np.max(np.abs(b))) if b.size else 0.0
+    m = max(float(np.max(np.abs(b))) if b.size else 0.0, floor)
     return bool(np.all(np.abs(a - b) <= tol * m))
+
+
+def obs_floor(cfg, sol):
+    s = float(np.max(np.abs(sol))) if np.size(sol) else 0.0
+    om = cfg["omap"]
+    if om[0] == "square":
+        return s * s
+    if om[0] == "scale":
+        return abs(om[1]) * s
+    if om[0] == "mat":
+        return np.shape(sol)[0] * float(np.max(np.abs(om[1]))) * s
+    return s
 
 
 def oracle_td(cfg, p, ob, q):
@@ -664,7 +682,7 @@ def oracle_td(cfg, p, ob, q):
             return ("observe() raised %s although every observation node and time coincides with a solution node and time step "
                     "(grid_sol %s nodes, %d time levels, time_obs=%r)" % (o[1], "no" if cfg["gsol"] is None else len(cfg["gsol"]), len(times), tob), SIG_SPL)
         return ("observe() raised %s" % o[1], "TimeDependentLinearPDE.observe")
-    if not arr_close(o[1], exp[1], 1e-7):
+    if not arr_close(o[1], exp[1], 1e-7, obs_floor(cfg, ob["u"])):
         sig = "TimeDependentLinearPDE.observe"
         ne = len(exp_tobs)
         if ne != 1 and all(t == times[-1] for t in exp_tobs) and np.asarray(o[1]).shape != np.asarray(exp[1]).shape:
@@ -687,7 +705,8 @@ def oracle_ss(cfg, p, ob, assembled=True):
     x = [frac(float(v)) for v in sol]
     if cfg["solver"].startswith("fake"):
         want = [2 * b[i] - fr_matvec(A, b)[i] for i in range(n)]
-        if x != want:
+        wscale = max(abs(float(v)) for v in want + b)
+        if any(abs(float(x[i] - want[i])) > 1e-12 * wscale for i in range(n)):
             return ("solution is not what the supplied solver returns for the assembled (A(p), b(p))", "SteadyStateLinearPDE.solve")
     else:
         Ax = fr_matvec(A, x)
@@ -725,7 +744,7 @@ def oracle_ss(cfg, p, ob, assembled=True):
         if coincide and len(gs or [0, 0, 0]) < 3:
             return None         # fewer than 3 nodes with a proper sub-grid: interp1d refuses; noted, not a cell of the green path
         return ("observe() raised %s" % o[1], "SteadyStateLinearPDE.observe")
-    if not arr_close(o[1], E, 1e-7):
+    if not arr_close(o[1], E, 1e-7, obs_floor(cfg, sol)):
         return ("observe(): got %s expected %s" % (np.asarray(o[1]).ravel()[:8].tolist(), E.ravel()[:8].tolist()), "SteadyStateLinearPDE.observe")
     return None
 
